@@ -609,6 +609,7 @@ type c04Run struct {
 	origSrc, simpSrc string
 	interp, bash     bool
 	skip             string
+	targeted         bool
 }
 
 func c04Print(f *syntax.File) (string, string) {
@@ -639,7 +640,11 @@ func c04Witness(src string) string { return "prog " + hx(src) }
 func c04Program(c *Ctx, pr c04Prog, lift bool) *c04Run {
 	f := c04Parse(pr.src)
 	if f == nil {
-		c.Case("unparsable:"+pr.src, false, "src:"+pr.origin, "unparsable")
+		if os.Getenv("C04_DEBUG") != "" && pr.origin == "targeted" {
+			_, err, _ := parseIn(pr.src, syntax.LangBash)
+			fmt.Fprintf(os.Stderr, "UNPARSABLE %v\n%s\n", err, pr.src)
+		}
+		c.Case("unparsable:"+pr.src, false, "src:"+pr.origin, "unparsable", "unparsable:"+pr.origin)
 		return nil
 	}
 	before := c04Render(f)
@@ -711,7 +716,7 @@ func c04Program(c *Ctx, pr c04Prog, lift bool) *c04Run {
 		}
 		c.Hist["reparse-ok"]++
 	}
-	run := &c04Run{witness: wit, origSrc: origPrinted, simpSrc: simpPrinted}
+	run := &c04Run{witness: wit, origSrc: origPrinted, simpSrc: simpPrinted, targeted: pr.origin == "targeted"}
 	if s := excl.bashSkip(); s != "" {
 		run.skip = s
 		if !lift && (s == "unsafe" || s == "nondet" || s == "subshell-var") {
@@ -1120,10 +1125,75 @@ func (g *c04Gen) stmt() string {
 	}
 }
 
+// Side-condition probes: for every rewrite site of simplify.go one statement shape on which
+// dropping (or misplacing) the rewrite's side condition changes stdout/status.
+
+// quoteProbe: [[ ]] operands whose variables hold glob / regex metacharacters, all of = == != =~,
+// negation, the variable on either side, quoted and unquoted.  Unquoting the right-hand side of
+// = == != (glob) or =~ (regex) flips the result for these values.
+func (g *c04Gen) quoteProbe() string {
+	r := g.r
+	var sb strings.Builder
+	for i, n := 0, 2+r.Intn(3); i < n; i++ {
+		val := r.Pick([]string{"f*", "?oo", "[a-f]oo", "a|b", ".*", "foo", "f*o", "*", "fo+", "^f", "a.b"})
+		subj := r.Pick([]string{"foo", "foo", "boo", "f*", "a|b", ".*", "a", "aXb", "fo+", "?oo", "[a-f]oo"})
+		if r.Chance(25) {
+			subj = val
+		}
+		op := r.Pick([]string{"=", "=", "==", "!=", "=~"})
+		v := r.Pick([]string{"\"$gp\"", "\"$gp\"", "\"${gp}\"", "$gp", "${gp}"})
+		neg := r.Pick([]string{"", "", "! ", "! ! "})
+		var t string
+		if r.Chance(75) {
+			t = "'" + subj + "' " + op + " " + v
+		} else {
+			t = v + " " + op + " " + r.Pick([]string{"'" + subj + "'", "\"" + subj + "\"", "\"$gq\"", "$gq"})
+		}
+		if r.Chance(15) {
+			t = "( " + t + " )"
+		}
+		if r.Chance(15) {
+			t = t + " " + r.Pick([]string{"&&", "||"}) + " " + r.Pick([]string{"-n \"$gp\"", "! -z \"$gq\"", "\"$gq\" = \"$gp\""})
+		}
+		fmt.Fprintf(&sb, "gp='%s'; gq='%s'; [[ %s%s ]]; echo $?\n", val, subj, neg, t)
+	}
+	return strings.TrimSuffix(sb.String(), "\n")
+}
+
+var c04Probes = []string{
+	// parentheses in arithmetic: only redundant ones may go (precedence, comma, assignment)
+	"echo $(( 2 * (3 + $a) )) $(( (z = 2, 3) * 2 )) $(( -(1 - $b) )) $(( ((1, 2)) )) $(( (2 + 3) * (4 - 1) )) $z",
+	"(( (z = 5) )); echo $? $z; (( (z = 0) )); echo $? $z; (( ((z += 2, 0)) )); echo $? $z",
+	"echo \"${s:(1)}\" \"${s:(-1)}\" \"${s:( -2 ):(1)}\" \"${s: -1}\" \"${s:-1}\" ${arr[@]:(1)}",
+	// subscripts: side effects and non-trivial expressions stay what they are
+	"echo ${arr[z++]} ${arr[(z)]} ${arr[$n + 1]} ${arr[($n)]} $z; arr[(n++)]=v; arr[n + $n]=w; echo \"${arr[@]}\" $n",
+	// inlineSimpleParams: only $name / ${name} with a valid name and nothing else
+	"set -- 4 5; echo $(( $1 + $# )) $(( ${1} * 2 )) $(( $2$1 )) $(( ${#s} )) $(( ${e:-7} )) $(( ${arr[1]} )) $(( ${a}0 )) $(( $a$b )); set -- u 'v w'",
+	"r=a; echo $(( ${!r} + 1 )) $(( ${#a} )) $(( ${a:0:1} )) $(( -$b )) $(( !$n )) $(( ~$a )) $(( \"$a\" + 1 ))",
+	"echo $(( $a ? $b : $c )) $(( $n ? $b : $c )) $(( $a, $b )) $(( ($a) )) $(( ${a} )) $(( $a + ($b) * ${c} ))",
+	// subshells: only a lone plain subshell statement is merged
+	"( ! ( exit 3 ) ); echo $?; ( ( exit 3 ) ); echo $?; ( ( echo a ) >/dev/null ); echo $?; ( ( exit 3 ); echo $? ); ( ( z=9 ) ); echo $z",
+	"echo $( ( echo a; exit 3 ) ) $?; echo $( ! ( exit 3 ) ) $?; echo $( ( echo b ) 2>&1 ); x=$( ( ( echo c ) ) ); echo $x $?",
+	"( ( z=7; echo $z ); echo $z ); echo $z; ( ( ( z=8 ) ); echo $z )",
+	// negations: only -z/-n/==/!= merge with !
+	"[[ ! $a -lt 5 ]]; echo $?; [[ ! $s =~ ^x ]]; echo $?; [[ ! ( -z $e ) ]]; echo $?; [[ ! -e /nonexistent ]]; echo $?; [[ ! $e ]]; echo $?",
+	"[[ ! -z $e ]]; echo $?; [[ ! -n $e ]]; echo $?; [[ ! ! -z $s ]]; echo $?; [[ ! $s == x* ]]; echo $?; [[ ! $s != x* ]]; echo $?; [[ ! $s = 'x y' ]]; echo $?",
+	"[[ ! -z $e && ! -n $s || ! ( $a == 3 ) ]]; echo $?; [[ ( ( -n $s ) ) && ( ! ( ! -z $e ) ) ]]; echo $?",
+	// unquoteParams: only a lone \"$param\" without operator word
+	"[[ -n \"$e$e\" ]]; echo $?; [[ \"x$s\" == 'xx y' ]]; echo $?; [[ \"$s\" == 'x y' ]]; echo $?; [[ -z \"${e:-'q'}\" ]]; echo $?; [[ \"${e:-~}\" == '~' ]]; echo $?",
+	"[[ \"$a\" -eq \"$a\" ]]; echo $?; [[ \"$s\" < \"$p\" ]]; echo $?; [[ \"$p\" == \"$p\" ]]; echo $?; [[ 'x' != \"$p\" ]]; echo $?; [[ x =~ \"$p\" ]]; echo $?",
+	// double-quoted literals: only when no ' and every backslash is one the double quotes remove
+	"echo \"it's \\$x\" \"a\\nb\" \"\\\\n\" \"\\$s\" \"\\`x\\`\" \"\\\"q\\\"\" \"a\\\\\" $\"a\\\\n\" $\"\\$s\" \"\\$\"'x'\"\\$\" \"a\"\"\\$\"",
+}
+
 func (g *c04Gen) program() string {
 	var sb strings.Builder
 	sb.WriteString(c04Prelude)
-	for i, n := 0, 2+g.r.Intn(5); i < n; i++ {
+	sb.WriteString(g.quoteProbe())
+	sb.WriteByte('\n')
+	sb.WriteString(g.r.Pick(c04Probes))
+	sb.WriteByte('\n')
+	for i, n := 0, 1+g.r.Intn(4); i < n; i++ {
 		sb.WriteString(g.stmt())
 		sb.WriteByte('\n')
 	}
@@ -1205,7 +1275,39 @@ func c04(c *Ctx) {
 
 	// behaviour leg: corpus first, then a budgeted sample, preferring targeted programs
 	rest := runs[nCorpus:]
-	sort.SliceStable(rest, func(i, j int) bool { return rest[i].skip == "" && rest[j].skip != "" })
+	// unrestricted runs first; among them two targeted programs (side-condition probes) for every other one
+	rank := func(r *c04Run) int {
+		k := 0
+		if r.skip != "" {
+			k += 2
+		}
+		if !r.targeted {
+			k++
+		}
+		return k
+	}
+	sort.SliceStable(rest, func(i, j int) bool { return rank(rest[i]) < rank(rest[j]) })
+	{
+		var tg, ot, mixed []*c04Run
+		for _, r := range rest {
+			if r.targeted && r.skip == "" {
+				tg = append(tg, r)
+			} else {
+				ot = append(ot, r)
+			}
+		}
+		for len(tg) > 0 || len(ot) > 0 {
+			for k := 0; k < 2 && len(tg) > 0; k++ {
+				mixed = append(mixed, tg[0])
+				tg = tg[1:]
+			}
+			if len(ot) > 0 {
+				mixed = append(mixed, ot[0])
+				ot = ot[1:]
+			}
+		}
+		rest = mixed
+	}
 	if len(rest) > shellBudget {
 		rest = rest[:shellBudget]
 	}
